@@ -139,19 +139,8 @@ CoincGrowsWithTau == Case => \A t2 \in TauSet :
    (RLt(Zero, mtau) /\ (RLe(mtau, t2) \/ t2 = Zero)) =>
       Coinc(a, b, TS, TE, mtau, mrts) \subseteq Coinc(a, b, TS, TE, t2, mrts)
 ----------------------------------------------------------------------------
-\* automatic threshold (C15): mean square of the pooled interval lengths -- every inter-spike interval
-\* once, an edge interval (only when the first / last spike is not on the edge) as the larger of the
-\* edge distance and the neighbouring interval, a one-spike train its two edge distances, an empty
-\* train the recording length.
-PoolDef(s) ==
-   LET N == Len(s) IN
-   IF N = 0 THEN <<TE-TS>>
-   ELSE IF N = 1 THEN <<s[1]-TS, TE-s[1]>>
-   ELSE (IF s[1] > TS THEN <<EdgeFirst(s, TS)>> ELSE <<>>)
-        \o [k \in 1..(N-1) |-> s[k+1]-s[k]]
-        \o (IF s[N] < TE THEN <<EdgeLast(s, TE)>> ELSE <<>>)
-SqSum(p) == ISum([k \in 1..Len(p) |-> p[k]*p[k]])
-AutoSq(x, y) == Norm(SqSum(PoolDef(x)) + SqSum(PoolDef(y)), Len(PoolDef(x)) + Len(PoolDef(y)))
+PoolDef(s) == PoolDefT(s, TS, TE)
+AutoSq(x, y) == AutoSqList(<<x, y>>, TS, TE)
 Export == Case =>
    PrintT(ToJson([k |-> "rel", a |-> a, b |-> b, ts |-> TS, te |-> TE, mrts |-> mrts, mtau |-> mtau, ri |-> ri,
                   minisi |-> MinIsi, autosq |-> AutoSq(a, b), poola |-> PoolDef(a), poolb |-> PoolDef(b)]))
